@@ -1,6 +1,7 @@
 /- driver ops for property C09 (model side of the correspondence) -/
 import Rsa.Core.Wire
 import Rsa.Core.Boot
+import Rsa.Gen.C09
 
 open Lean Rsa.Wire Rsa.Boot
 
@@ -32,8 +33,16 @@ def asStack (j : Json) : R (Stack Lbl Rat) := do
   let pd ← fld j "pat_desc" >>= asDesc
   pure { nCond := n, vecs := vecs, rdmDesc := rd, patDesc := pd }
 
+/-- number of conditions the `RDMs` constructor recovers from a 2-d stack of these vectors
+    (generated leaf `_get_n_from_reduced_vectors`); `null` for an empty stack -/
+def recovered (s : Stack Lbl Rat) : Json :=
+  match s.vecs with
+  | [] => Json.null
+  | v :: _ => ofNat (Rsa.Gen.C09.nFromReduced v.length)
+
 def ofStack (s : Stack Lbl Rat) : Json :=
   obj [("n_cond", ofNat s.nCond),
+       ("n_cond_2d", recovered s),
        ("vecs", ofList (ofList (ofOpt ofRat)) s.vecs),
        ("rdm_desc", ofDesc s.rdmDesc),
        ("pat_desc", ofDesc s.patDesc)]
